@@ -222,6 +222,32 @@ def forced_interleavings(parties=2, rounds=3):
     return out
 
 
+def rebinding_probe():
+    """A call's result depends only on its arguments -- and on what its arguments' names MEAN when the call is made: a class
+    that is rebound between two calls (importlib.reload, a re-run notebook cell, a class factory run again) must be
+    resolved afresh by the second load."""
+    import types
+    import skops.io as sio
+    mod = types.ModuleType("verif_dyn_mod")
+    sys.modules["verif_dyn_mod"] = mod
+    out = []
+    try:
+        for version in (1, 2, 3):
+            exec(f"class K:\n    version = {version}\n    def __init__(self, x=0):\n        self.x = x\n    def describe(self):\n        return 'K v{version}'\n"
+                 f"def f(v):\n    return ('f v{version}', v)\n", mod.__dict__)
+            mod.K.__module__ = "verif_dyn_mod"
+            mod.f.__module__ = "verif_dyn_mod"
+            obj = {"inst": mod.K(version), "fn": mod.f, "cls": mod.K}
+            data = sio.dumps(obj)
+            back = sio.loads(data, trusted=sio.get_untrusted_types(data=data))
+            ok = (type(back["inst"]) is mod.K and back["inst"].describe() == f"K v{version}" and back["fn"] is mod.f and back["cls"] is mod.K
+                  and back["inst"].x == version)
+            out.append([version, ok, back["inst"].describe() if hasattr(back["inst"], "describe") else None, getattr(back["cls"], "version", None)])
+    finally:
+        sys.modules.pop("verif_dyn_mod", None)
+    return out
+
+
 def module_state():
     from skops.io import _audit, _trusted_types, _utils
     from skops.card import _model_card, _markup
@@ -295,6 +321,7 @@ def main():
         t.join()
     sys.setswitchinterval(old)
     forced = forced_interleavings(2, 3) + [dict(x, parties=3) for x in forced_interleavings(3, 1)]
+    rebound = rebinding_probe()
     s1 = module_state()
     # separate Card instances never share sections or metrics
     from skops.card import Card
@@ -305,7 +332,7 @@ def main():
     c1.add_table(**{"T": {"x": [1]}})
     after = (c2.render(), c2.get_toc(), repr(getattr(c2, "_metrics", None)))
     json.dump({"first": r1, "after_history": r2, "threads": results, "module_state_changed": {k: [s0.get(k), s1.get(k)] for k in set(s0) | set(s1) if s0.get(k) != s1.get(k)},
-               "forced": forced, "cards_independent": before == after, "card_before_after": [before, after]}, real_stdout, default=str)
+               "forced": forced, "rebound": rebound, "cards_independent": before == after, "card_before_after": [before, after]}, real_stdout, default=str)
 
 
 if __name__ == "__main__":
